@@ -208,8 +208,11 @@ Spec == [][Next]_vars /\ WF_vars(Next)
 CallItems == Items(calls)
 \* At termination the complete sequence was delivered - or an error was delivered last.
 PagingLossless == st = "done" => CallItems = Expected(cfg)
-\* While running / when declined: what was delivered is the beginning of the listing.
-PrefixDelivered == st \in {"run", "declined", "done"} => IsPrefix(CallItems, Expected(cfg))
+\* While running / when declined: what was delivered is the beginning of the listing -
+\* unless an error is still to come (a unifier delivers what its healthy member has and
+\* then the other member's error: not a prefix, but never without the error).
+PrefixDelivered == (st \in {"run", "declined", "done"} /\ ~MayFail(cfg.node, cfg.kind)) => IsPrefix(CallItems, Expected(cfg))
+OnlyListed == \A p \in 1..Len(CallItems) : CallItems[p] \in ToSet(Expected(cfg))
 NoDuplicates == \A p, q \in 1..Len(CallItems) : p # q => CallItems[p] # CallItems[q]
 Ascending == \A p \in 1..Len(CallItems) - 1 : CallItems[p] < CallItems[p + 1]
 StrictlyAfterStart == \A p \in 1..Len(CallItems) : cfg.kind # "refs" => Pos(CallItems[p]) > cfg.a
